@@ -81,10 +81,28 @@ Fixpoint pcompile (k : lowcfg) (d : nat) (s : pstmt) (kn kb kc : pcode) : option
                    then Some (tup_sets (phi_reg d) ts (tup_gets (phi_reg d) xs kn)) else None
       | None => None
       end
+  | PSCall x f args =>
+      (* gen_assign with a Call value: gen_call evaluates the arguments, FunctionCall, store_value *)
+      match lower_list k args with
+      | Some ts => Some (KCall x f ts kn)
+      | None => None
+      end
+  end.
+
+(* a module: its functions in definition order, each (number of locals besides the parameters, body);
+   gen_function compiles each body on its own *)
+Fixpoint compile_funs (k : lowcfg) (funs : list (nat * pstmt)) : option (list (nat * pcode)) :=
+  match funs with
+  | [] => Some []
+  | (nloc, body) :: r =>
+      match pcompile k 0 body KStuck KStuck KStuck, compile_funs k r with
+      | Some c, Some cs => Some ((nloc, c) :: cs)
+      | _, _ => None
+      end
   end.
 
 Definition wrap64 (z : Z) : Z := wrap_bits 64 true z.
-Notation pruns := (runs itree eval_tree wrap64).
+Notation pruns ft := (runs itree eval_tree wrap64 ft).
 
 (* rendering for the structural comparison with decompiled python_to_ir output *)
 From Coq Require Import String.
